@@ -72,11 +72,11 @@ def uci_part(chk, pid, wd, gs, bpath, quick, seed, variants=()):
             fen = eng.read_err_fen(25.0)
             ev.append({"ev": "State", "fen": list(fen) if fen else [], "seen": fen is not None, "pos": uci_driver.fen_to_pos(fen) if fen else uci_driver.EMPTY_POS})
             eng.send("isready")
-            lines, ok = eng.read_until(lambda l: l.strip() == "readyok", 25.0)
+            lines, ok = eng.read_until(lambda l: l.strip() == "readyok", 60.0)
             ev += [uci_driver.classify(l) for l in lines]
             ev.append({"ev": "In", "kind": "go"})
             eng.send("go depth 1")
-            lines, ok = eng.read_until(lambda l: l.startswith("bestmove"), 25.0)
+            lines, ok = eng.read_until(lambda l: l.startswith("bestmove"), 60.0)
             out = [uci_driver.classify(l) for l in lines]
             spawned = not any(o.get("kind") == "book" for o in out)
             if spawned:
@@ -84,10 +84,10 @@ def uci_part(chk, pid, wd, gs, bpath, quick, seed, variants=()):
             ev += out
             best = [l for l in lines if l.startswith("bestmove")]
             if not ok or not best:
-                ev.append({"ev": "Hang", "after": "go", "waited_s": 25.0})
+                ev.append({"ev": "Hang", "after": "go", "waited_s": 60.0})
                 break
             eng.send("isready")
-            lines, ok = eng.read_until(lambda l: l.strip() == "readyok", 25.0)
+            lines, ok = eng.read_until(lambda l: l.strip() == "readyok", 60.0)
             ev += [uci_driver.classify(l) for l in lines]
             if spawned:
                 break
@@ -114,13 +114,13 @@ def uci_part(chk, pid, wd, gs, bpath, quick, seed, variants=()):
             got = eng.read_err_fen(25.0)
             ev.append({"ev": "State", "fen": list(got) if got else [], "seen": got is not None, "pos": uci_driver.fen_to_pos(got) if got else uci_driver.EMPTY_POS})
             eng.send("isready")
-            lines, ok = eng.read_until(lambda l: l.strip() == "readyok", 25.0)
+            lines, ok = eng.read_until(lambda l: l.strip() == "readyok", 60.0)
             ev += [uci_driver.classify(l) for l in lines]
             # the book answers with a random one of its moves: ask again while it answers, to see more of what it offers
             for rep in range(8):
                 ev.append({"ev": "In", "kind": "go"})
                 eng.send("go depth 1")
-                lines, ok = eng.read_until(lambda l: l.startswith("bestmove"), 25.0)
+                lines, ok = eng.read_until(lambda l: l.startswith("bestmove"), 60.0)
                 out = [uci_driver.classify(l) for l in lines]
                 book = any(o.get("kind") == "book" for o in out)
                 if not book:
@@ -129,10 +129,10 @@ def uci_part(chk, pid, wd, gs, bpath, quick, seed, variants=()):
                     answered += 1
                 ev += out
                 if not ok:
-                    ev.append({"ev": "Hang", "after": "go", "waited_s": 25.0})
+                    ev.append({"ev": "Hang", "after": "go", "waited_s": 60.0})
                     break
                 eng.send("isready")
-                lines, ok = eng.read_until(lambda l: l.strip() == "readyok", 25.0)
+                lines, ok = eng.read_until(lambda l: l.strip() == "readyok", 60.0)
                 ev += [uci_driver.classify(l) for l in lines]
                 if not book or not ok:
                     break
